@@ -374,7 +374,7 @@ def _run(chk, exe, judge, wit, work):
         rc, out = common.sh([exe, str(hseed), str(count), objf, str(maxmut)], timeout=1500)
         lines = out.split("\n")
         done = any(l.startswith("DONE ") for l in lines)
-        R, Mc, base, last_b, last_mb = {}, {}, defaultdict(set), None, None
+        R, Mc, base, last_b, last_mb, bmark = {}, {}, defaultdict(set), None, None, {}
         for l in lines:
             if l.startswith("R "):
                 p = l.split()
@@ -389,12 +389,19 @@ def _run(chk, exe, judge, wit, work):
                 last_b = l
             elif l.startswith("MB "):
                 last_mb = l.split()
+            elif l[:3] in ("BX ", "BY ", "BZ "):
+                bmark[int(l.split()[1])] = l[:2]
             elif l.startswith("CRASH "):
                 p = l.split()
                 # the last announced mutated load of that object is the one that did not return
                 tk = objs_tokens(objf, int(p[1]))
                 pos, kind = (int(last_mb[2]), last_mb[3]) if last_mb and last_mb[1] == p[1] else (-1, "?")
-                chk.failure({"site": p[2] + "::ascii_load", "kind": "crash-on-malformed-stream"},
+                mt = [t for k_, t in enumerate(tk) if not (kind == "D" and k_ == pos)]
+                if kind == "R" and 0 <= pos < len(mt):
+                    mt[pos] = "@@"
+                size0 = any(a == "size" and b == "0" for a, b in zip(mt, mt[1:]))
+                chk.failure({"site": (p[2] if not size0 else "Linear_Expression_Impl") + "::ascii_load",
+                             "kind": "crash-on-malformed-stream" + ("-size-0-row" if size0 else "")},
                             {"harness_seed": hseed, "index": int(p[1]), "maxmut": maxmut, "class": p[2], "exit_status": p[3],
                              "token_index": pos, "mutation": {"D": "token deleted", "R": "token replaced by @@"}.get(kind, kind),
                              "token": tk[pos] if 0 <= pos < len(tk) else None,
@@ -444,7 +451,14 @@ def _run(chk, exe, judge, wit, work):
                         and r["answers"] == "1" and r["battery"] == "1")
             if not fresh_ok:
                 info = None
-                if cls in FLOAT_SHAPES and r["load"] == "0" and any(MISPRINT.match(t) for t in t1):
+                if r.get("bcrash") == "1":
+                    replay["battery_marker"] = bmark.get(idx)
+                    if cls == "PIP_Problem" and bmark.get(idx) == "BY" and "DECISION" in t1 and r["load"] == "1" and r["same"] == "1":
+                        # the ORIGINAL survived the battery (marker BY reached), the LOADED problem crashed
+                        info = {"site": "PIP_Decision_Node::ascii_load", "kind": "loaded-decision-tree-crashes-on-resolve"}
+                    else:
+                        info = {"site": cls + "::ascii_load", "kind": "battery-crash", "marker": bmark.get(idx)}
+                elif cls in FLOAT_SHAPES and r["load"] == "0" and any(MISPRINT.match(t) for t in t1):
                     info = {"site": "Checked::float_mpq_to_string", "kind": "negative-float-below-0.1-misprinted"}
                 elif cls in BOXES and r["load"] == "1" and r["eq"] == "1" and r["answers"] == "1":
                     fl = only_stale_set(t1, t2, ("EUP", "EM"))
